@@ -60,6 +60,12 @@ def batches (m : Nat) : Nat → List OutFrame → List (List OutFrame)
   | _, [] => []
   | fuel + 1, q => if m = 0 then [] else q.take m :: batches m fuel (q.drop m)
 
+/-- what the peer receives when the loop observes a close request or the shutdown after `k` write rounds: the close and
+    shutdown arms of the loop's `select!` are polled only between rounds, a round writes its batch to completion, and the
+    closing ERROR frame follows (`run_connection_loop`: the write arm awaits `write_iovs` inside its own branch) -/
+def loopOut (m : Nat) (q : List OutFrame) (k : Nat) (closing : List Byte) : List Byte :=
+  (((batches m q.length q).take k).map (fun b => (b.flatMap iovs).flatten)).flatten ++ closing
+
 /-! ## the bounded outbound queue (`ConnTx`) -/
 
 structure ConnQ where
